@@ -6,10 +6,10 @@ TECH = "SMT-based bounded symbolic execution of the real Go code (own go/ssa exe
 
 CHECKS = {
  "C08": dict(level="model_checking", ref="DESIGN.md 4 C08",
-  text="bounded symbolic execution of the real buildLabelValueKey/GetDatum/FindLabelValueOrNil/RemoveDatum/ExpireDatum with all label bytes symbolic; the solver decides injectivity for every byte assignment within the stated arity/length bounds, plus a prefix-code lemma from which all arities follow by induction",
+  text="bounded symbolic execution of the real buildLabelValueKey/GetDatum/FindLabelValueOrNil/RemoveDatum/ExpireDatum with all label bytes symbolic; the solver decides injectivity for every byte assignment within the stated arity/length bounds, plus a prefix-code lemma from which all arities follow by induction; and one operation on a tuple with a second operation on an arbitrary tuple let in at every point at which the first releases the metric's lock (the C09 interference job)",
   note="bounds: arity<=2, labels<=2..3 bytes (quick); arity<=4, labels<=5 bytes (thorough). strings.ReplaceAll/Builder are engine models validated by native replay of sampled paths"),
  "C09": dict(level="model_checking", ref="DESIGN.md 4 C09",
-  text="bounded model checking of every sequence of <=3 (thorough 4) metric operations from the empty metric with symbolic label bytes and expiries, against an association-list oracle; slice/index agreement, datum identity, order, expiry and EmitLabelSets output asserted after every step",
+  text="bounded model checking of every sequence of <=3 (thorough 4) metric operations from the empty metric with symbolic label bytes and expiries, against an association-list oracle; slice/index agreement, datum identity, order, expiry and EmitLabelSets output asserted after every step; plus an interference job: operation A on a populated metric with operation B run to completion at a solver-chosen lock-release point of A, results and final state equal to A;B or B;A",
   note="bounds: arity 0..2, labels 0..1 bytes (2 thorough), 2-4 operations, value types Int/String/Buckets (all four thorough); EmitLabelSets runs under the engine's deterministic scheduler"),
  "C10": dict(level="model_checking", ref="DESIGN.md 4 C10",
   text="one Store.Gc pass from an arbitrary metric state: 0..3 (thorough 4) data with fully symbolic int64 timestamps and expiries, symbolic limit and clock; the solver shows the surviving set is always explainable as oldest-first limit enforcement followed by the exact expiry rule",
@@ -27,7 +27,7 @@ CHECKS.update({
   text="Store.Add as one inductive step from an arbitrary valid store (two metrics chosen from name/program/kind/type/source/keys alphabets, symbolic values and expiries): metrics of other programs keep identity and data, no datum is shared across programs, refusal iff kind conflict and then nothing changes, lookups never cross programs",
   note="pre-state constructed directly under the representation invariant (one kind per name, one metric per name and program); per-program VM/channel isolation in CompileAndRun is by construction and outside the solver question"),
  "C12": dict(level="model_checking", ref="DESIGN.md 4 C12",
-  text="fault-point bounded model checking of Collect, writeSocketMetrics, HandleVarz and HandleGraphite on the real store/metric/emitter code: every subset of refused Prometheus constructor calls, a write failure at any write, cancellation before or at any write; afterwards every metric lock is free, no interpreted goroutine is left blocked, and a further update completes",
+  text="fault-point bounded model checking of Collect, writeSocketMetrics, HandleVarz and HandleGraphite on the real store/metric/emitter code: every subset of refused Prometheus constructor calls, a write failure at any write, cancellation before or at any write; afterwards every metric lock is free, no interpreted goroutine is left blocked, and a further update completes; a writer (label-set creation / removal on the exported metric) is additionally queued at each export point - constructor call, write, and right after each metric read-lock - so a re-entrant read lock behind a waiting writer shows as a blocked goroutine",
   note="bounds: quick 1 metric x <=2 label sets; thorough 1 metric x <=3 label sets and 2 metrics x <=1 label set; lock and goroutine state read from the engine's lock/goroutine tables; one deterministic schedule of the emitter goroutine; client-library constructors are recording stubs that refuse what client_golang refuses (invalid/duplicate label name, non-UTF-8 value, ...) and additionally any solver-chosen call; push connection and ResponseWriter are fault-injecting harness types (natively: fault-injecting wrappers around the real constructors)"),
  "C13": dict(level="model_checking", ref="DESIGN.md 4 C13",
   text="the real Collect on a symbolic store (any kind/type, symbolic int64/float64 values incl. NaN/Inf, symbolic label bytes and timestamps, prog label and timestamps on/off): the recorded constructor calls are matched one-to-one with the store's label sets - name, label names/values, value as float64, value type, timestamp iff enabled, histogram cumulative counts; label sets the client library refuses (modelled: the harness key is either a valid label name or `key-a`, label bytes may be non-UTF-8) or that the solver refuses are skipped and exactly all others are emitted",
@@ -54,7 +54,7 @@ CHECKS.update({
   text="two-run equivalence on the real VM: instance A processes an arbitrary earlier line (symbolic match outcomes and captures) and then the line; instance B is a fresh vm.New on the same bytecode whose metrics were given A's values; the solver shows that metrics (label sets, values, expiry marks, timestamps up to clock skew) and the runtime-error count of the line are identical for every assignment, i.e. nothing but metrics is carried across lines (captures, time register, strptime memo, terminate flag, runtime error)",
   note="history of one earlier line (the carried state after one line is what the next line sees); corpus as C04 incl. strptime with two layouts, stop, failing conversions, short-circuit || with a capture read in the body; captures <= 1 byte quick, 2 thorough; time.Parse uninterpreted (same function for both instances)"),
  "C25": dict(level="model_checking", ref="DESIGN.md 4 C25",
-  text="per-unit exactness of the self-monitoring counters on every explored path: log_lines_total[source] moves by exactly the number of lines the LineReader delivered (C15 harness: every byte string, chunking and buffer size in bound, incl. the flushed last fragment); prog_runtime_errors_total[prog] moves by exactly 1 on a line aborted by a runtime error and 0 otherwise (C04 harness) and never on a load; prog_loads_total / prog_unloads_total / prog_load_errors_total move by exactly the loads, unloads and failed loads (syntax error, refused registration) of every loader history (C14/C26 harnesses)",
+  text="per-unit exactness of the self-monitoring counters on every explored path: log_lines_total[source] moves by exactly the number of lines the LineReader delivered (C15 harness: every byte string, chunking and buffer size in bound, incl. the flushed last fragment); prog_runtime_errors_total[prog] moves by exactly 1 on a line aborted by a runtime error and 0 otherwise (C04 harness and the C05 multi-line history programs) and never on a load; prog_loads_total / prog_unloads_total / prog_load_errors_total move by exactly the loads, unloads and failed loads (syntax error, refused registration) of every loader history (C14/C26 harnesses)",
   note="expvar is a counter table in the engine (natively: the real expvar maps); lines_total vs the sum over all streams and log_count (whole program) are outside this claim"),
 })
 
